@@ -8,7 +8,7 @@ from collections import Counter
 
 from .. import gen
 from ..loop import CTX, drive
-from ..tools import run_async_side
+from ..tools import run_async_side, Fault
 
 ID = "C03"
 LEVEL = "exploration"
@@ -31,6 +31,19 @@ SRC_FL = ["list", "getitem_seq", "sync_iter", "async_gen", "async_class", "async
 FN_FL = ["def", "async_def", "partial", "callobj", "awaitobj"]
 
 
+CALL_FAULTS = ["StopIteration", "StopAsyncIteration", "StopIteration", "ValueError", "TypeError", "KeyError", "LookupError",
+               "AttributeError", "Injected", "InjectedBase", "RuntimeError"]
+
+
+def _call_fault(case):
+    if "fault" not in case:
+        return None
+    from ..probes import FAULT_TYPES
+    idx, use, name = case["fault"]
+    types = dict(FAULT_TYPES, StopIteration=StopIteration, StopAsyncIteration=StopAsyncIteration)
+    return Fault("fn", idx, use, types[name]("injected"), "call")
+
+
 def cases(tier, seed, shard, nshards):
     if shard == 0:
         yield {"kind": "return-kinds"}
@@ -40,7 +53,14 @@ def cases(tier, seed, shard, nshards):
     for i in range(n):
         name = names[i % len(names)]
         spec = gen.agg_spec(rng, name, 5) if name in gen.AGG_NAMES else gen.iter_spec(rng, name, 5)
-        yield {"kind": "tool", "spec": spec, "vseed": rng.randrange(1 << 30), "maxvec": 60 if tier == "quick" else 500}
+        case = {"kind": "tool", "spec": spec, "vseed": rng.randrange(1 << 30), "maxvec": 60 if tier == "quick" else 500}
+        live = [k for k, f in enumerate(spec.get("fns", [])) if f is not None]
+        if live and rng.random() < 0.35:
+            # the callable fails at its k-th call: every flavour of callable must make the tool end the same way --
+            # also when what it raises is StopIteration / StopAsyncIteration, which a plain function raises
+            # directly into the caller's frame and a coroutine cannot
+            case["fault"] = [rng.choice(live), rng.choice([1, 1, 2, 3]), rng.choice(CALL_FAULTS)]
+        yield case
     from . import C16
     k16 = 0
     for gb in C16.cases(tier, seed, shard, nshards):
@@ -86,7 +106,11 @@ def run_tool(case, stats):
     nfn = len(fns)
     live_fn = [i for i, f in enumerate(fns) if f is not None]
     steps = spec.get("steps")
-    base = run_async_side(spec, flavours=["list"] * nsrc, fn_flavours=["def"] * nfn, steps=steps, outer_flavour="list")
+    base = run_async_side(spec, flavours=["list"] * nsrc, fn_flavours=["def"] * nfn, steps=steps, outer_flavour="list",
+                          fault=_call_fault(case))
+    if "fault" in case:
+        stats["specs_with_a_failing_callable"] += 1
+        stats[f"callable_raises_{case['fault'][2]}"] += 1
     rng = random.Random(case["vseed"])
     viols, sigs, evals = [], [], 0
     nonempty = any(spec["srcs"]) if spec["srcs"] else False
@@ -100,7 +124,7 @@ def run_tool(case, stats):
         if complete:
             stats["variants_from_complete_vector_sets"] += 1
         outer = sv[0] if sv and sv[0] in ("list", "async_gen", "async_class", "sync_iter") else "list"
-        var = run_async_side(spec, flavours=sv, fn_flavours=fvec, steps=steps, outer_flavour=outer)
+        var = run_async_side(spec, flavours=sv, fn_flavours=fvec, steps=steps, outer_flavour=outer, fault=_call_fault(case))
         stats["variant_runs"] += 1
         for f in set(sv):
             stats[f"src_{f}"] += 1
